@@ -52,7 +52,7 @@ var dhcpClients = []refdec.MAC{{0x02, 0xc1, 0, 0, 0, 1}, {0x02, 0xc2, 0, 0, 0, 2
 var bystander = refdec.MAC{0x02, 0xdd, 0, 0, 0, 9}
 
 type dop struct {
-	K string // disc discrep sel selother renew reboot decline release cap rel adv foreign learn inform
+	K string // disc discrep sel selother renew reboot decline release cap rel adv foreign learn inform restart
 	C int    // client
 	P int    // parameter choice
 	D time.Duration
@@ -107,11 +107,15 @@ func (d *dhcpRun) pickAddr(p int, me *dclient, cls []*dclient, captured bool) ne
 	if captured {
 		lan = d.net.netfilter.Masked()
 	}
-	other := cls[0]
-	for _, x := range cls {
-		if x != me {
+	// the other client: prefer one that holds what the parameter asks for (its offer for 2, its lease for 3)
+	var other *dclient
+	for k := range cls {
+		x := cls[(k+int(d.idx))%len(cls)]
+		if x == me {
+			continue
+		}
+		if other == nil || (p == 2 && x.offered.IsValid() && !other.offered.IsValid()) || (p == 3 && x.acked.IsValid() && !other.acked.IsValid()) {
 			other = x
-			break
 		}
 	}
 	switch p {
@@ -309,6 +313,27 @@ func (d *dhcpRun) history() {
 			time.Sleep(o.D)
 			synctest.Wait()
 			h.MinuteTicker(time.Now())
+		case "restart":
+			// the server goes down and comes back from its lease file: handler only (P even) or the whole process, i.e. a new
+			// session with an empty host table and no capture flags (P odd). Offers are forgotten, acknowledged leases are not.
+			h.Close()
+			if o.P%2 == 1 {
+				s.Close()
+				synctest.Wait()
+				rec = mon.NewRecorder(8)
+				if s, err = mon.NewSession(rec, nic, 0, 0, 0); err != nil {
+					panic("HARNESS BUG: " + err.Error())
+				}
+			}
+			if h, err = (dhcp4_spoofer.Config{Mode: d.mode, NetfilterIP: d.net.netfilter, DNSServer: d.dns, LeaseFilename: file}).New(s); err != nil {
+				c.ViolP("C18", "lease:restart:construct-error", err.Error(), cs(step))
+				d.viol = true
+				return
+			}
+			time.Sleep(3 * time.Second)
+			synctest.Wait()
+			rec.Take()
+			c.Obs("midhistory_restarts", 1)
 		case "foreign":
 			// another server's OFFER to the client, seen on port 68
 			q := refdec.DHCPMsg{Op: 2, HType: 1, HLen: 6, XID: cl.xid, YI: d.pickAddr(1, cl, cls, false)}
@@ -427,14 +452,16 @@ var dhcpAlphabet = func() []dop {
 	for c := 0; c < 2; c++ {
 		a = append(a, dop{K: "disc", C: c, P: 0}, dop{K: "disc", C: c, P: 2}, dop{K: "sel", C: c, P: 0}, dop{K: "sel", C: c, P: 3}, dop{K: "renew", C: c, P: 0}, dop{K: "reboot", C: c, P: 0})
 	}
-	return append(a, dop{K: "cap", C: 0}, dop{K: "adv", D: 4*time.Hour + time.Minute})
+	return append(a, dop{K: "cap", C: 0}, dop{K: "adv", D: 4*time.Hour + time.Minute}, dop{K: "restart", P: 1})
 }()
 
 func randDop(r *rand.Rand) dop {
 	c := r.Intn(3)
-	switch k := r.Intn(24); {
+	switch k := r.Intn(26); {
+	case k >= 24:
+		return dop{K: "restart", P: r.Intn(2)}
 	case k < 5:
-		return dop{K: "disc", C: c, P: []int{0, 0, 1, 2, 3, 4, 5, 6, 7, 8, 9}[r.Intn(11)]}
+		return dop{K: "disc", C: c, P: []int{0, 0, 1, 2, 2, 3, 3, 4, 5, 6, 7, 8, 9}[r.Intn(13)]}
 	case k < 6:
 		return dop{K: "discrep", C: c, P: r.Intn(2)}
 	case k < 10:
